@@ -1280,6 +1280,52 @@ def sweep_shape(ctx, cfg, cap):
                  {"kind": "shape", "pairs": wrong[:10]}, {"first": wrong[:10]})
 
 
+def sweep_shape_any(ctx, cfg, cap, big):
+    """GridSearchResult built from ANY number of unit lists (not only full grids), d = 1..6: shape, side_length,
+    whether GridList.native can reshape a per-cell list, first reported upper unit limit - against sideRound /
+    nativeOk / upperUnit; near-power totals n^d - 1, n^d, n^d + 1 up to `big`"""
+    from autofit.non_linear.grid.grid_list import GridList
+    pairs = [(total, d) for d in range(1, 7) for total in range(1, cap + 1)]
+    for d in range(2, 7):
+        n = 2
+        while n ** d <= big:
+            if n ** d > cap and (n % 7 == 3 or (n + 1) ** d > big):
+                pairs += [(n ** d - 1, d), (n ** d, d), (n ** d + 1, d)]
+            n += 1
+    got_side, got_native, got_upper = [], [], []
+    for total, d in pairs:
+        r = GridSearchResult(None, [[0.0] * d] * total, [])
+        shape = [int(x) for x in r.shape]
+        got_side.append(shape[0] if shape == [int(r.side_length)] * d else -1)
+        try:
+            GridList(list(range(total)), r.shape).native
+            got_native.append(True)
+        except ValueError:
+            got_native.append(False)
+        got_upper.append(f2h(float(r.upper_limits_lists[0][0])) if total <= 2000 else None)
+    ans = ctx.lean.ask({"p": "C16", "q": "shape", "cfg": cfg, "pairs": [[t, d] for t, d in pairs]})
+    ctx.case({"sweep": "shape_any", "cap": cap, "big": big}, nontrivial=True)
+    if "driver_error" in ans:
+        ctx.disagree("C16.driver", {"kind": "shape_any", "cap": cap, "big": big}, None, _short(ans))
+        return
+    for name, got, model in (("side", got_side, ans.get("sides")), ("native_ok", got_native, ans.get("native_ok")),
+                             ("upper_first", got_upper, [u if g is not None else None for u, g in zip(ans.get("upper_first", []), got_upper)])):
+        if got != model:
+            bad = [i for i in range(len(pairs)) if model is None or i >= len(model) or got[i] != model[i]][:5]
+            ctx.disagree(f"C16.sweep.shape_any.{name}", {"kind": "shape_any", "cap": cap, "big": big, "pairs": [pairs[i] for i in bad]},
+                         [got[i] for i in bad], [model[i] for i in bad] if model else None)
+    ctx.notes["shapes_of_arbitrary_totals_checked"] = len(pairs)
+    # the property speaks about full grids only: n^d results report (n,)*d and can be reshaped
+    for (total, d), side, ok in zip(pairs, got_side, got_native):
+        n = round(total ** (1.0 / d))
+        n = next((m for m in (n - 1, n, n + 1) if m >= 1 and m ** d == total), None)
+        if n is not None and (side != n or not ok):
+            ctx.fail("C16-shape-root", f"a result of {n}^{d} cells reports side {side}" + ("" if ok else " and native cannot reshape it"),
+                     {"kind": "shape_any", "cap": cap, "big": big, "pairs": [[total, d]]}, {"total": total, "d": d})
+            break
+    ctx.hit("shape-any:non-powers-compared")
+
+
 # ---------------------------------------------------------------------------------------------
 
 
@@ -1295,6 +1341,8 @@ def one_case(ctx, cfg, case, label="gen"):
         sweep_steps(ctx, cfg, max(case["ns"]))
     elif kind == "shape":
         sweep_shape(ctx, cfg, max(n ** d for n, d in case["pairs"]))
+    elif kind == "shape_any":
+        sweep_shape_any(ctx, cfg, case.get("cap", 300), case.get("big", 200000))
 
 
 def setup(ctx):
@@ -1334,6 +1382,8 @@ def run(ctx):
     lap("sweep_steps")
     sweep_shape(ctx, cfg, 20000 if quick else 200000)
     lap("sweep_shape")
+    sweep_shape_any(ctx, cfg, 300 if quick else 1500, 200000 if quick else 3000000)
+    lap("sweep_shape_any")
     for _ in range(ctx.n(300, 3000)):
         run_builder(ctx, cfg, gen_builder_case(ctx.rng))
     lap("builder")
